@@ -18,7 +18,8 @@
 (*      in order, over a FIFO channel; the client hands them to its        *)
 (*      callbacks, in order; a server error ends the stream after what was *)
 (*      sent; the client may stop early (LIMIT).  The state machine below  *)
-(*      is model-checked: what the client delivered is always a prefix of  *)
+(*      (PluginStream.tla) is model-checked: what the client delivered is  *)
+(*      always a prefix of                                                 *)
 (*      the script, all of it when the stream ends normally, and exactly   *)
 (*      the part before the failure when the server fails.                 *)
 (***************************************************************************)
@@ -38,31 +39,5 @@ MkRecord(i) == [values |-> ValSeq(RandomElement(0..3)), retraction |-> RandomEle
 FrameSeq(n, phys) == IF n = 0 THEN <<>> ELSE Append(FrameSeq(n - 1, phys), IF phys THEN FieldSeq(RandomElement(0..2)) ELSE ValSeq(RandomElement(0..2)))
 MkCtx(phys) == FrameSeq(RandomElement(0..3), phys)          \* innermost frame first; the empty stack is the nil context
 
-(* ------------------------------------------------------------------ (iii) the Run stream *)
-CONSTANTS Script,        \* the sequence of messages the server's node produces; "ERR" = the node fails at that point
-          MaxTake        \* the client stops after this many delivered messages (Len(Script) + 1 = never)
-VARIABLES sent,          \* how many script entries the server has processed
-          chan,          \* the FIFO stream
-          delivered,     \* what the client handed to its callbacks
-          server, client \* "run" | "done" | "failed" | "stopped"
-svars == <<sent, chan, delivered, server, client>>
-SInit == sent = 0 /\ chan = <<>> /\ delivered = <<>> /\ server = "run" /\ client = "run"
-Send == /\ server = "run" /\ sent < Len(Script) /\ Script[sent + 1] # "ERR"
-        /\ chan' = Append(chan, Script[sent + 1]) /\ sent' = sent + 1 /\ UNCHANGED <<delivered, server, client>>
-Fail == /\ server = "run" /\ sent < Len(Script) /\ Script[sent + 1] = "ERR"
-        /\ server' = "failed" /\ UNCHANGED <<sent, chan, delivered, client>>
-Finish == /\ server = "run" /\ sent = Len(Script) /\ server' = "done" /\ UNCHANGED <<sent, chan, delivered, client>>
-Recv == /\ client = "run" /\ chan # <<>> /\ Len(delivered) < MaxTake
-        /\ delivered' = Append(delivered, Head(chan)) /\ chan' = Tail(chan) /\ UNCHANGED <<sent, server, client>>
-Stop == /\ client = "run" /\ Len(delivered) = MaxTake /\ client' = "stopped" /\ UNCHANGED <<sent, chan, delivered, server>>
-Eof  == /\ client = "run" /\ chan = <<>> /\ server \in {"done", "failed"} /\ Len(delivered) < MaxTake
-        /\ client' = server /\ UNCHANGED <<sent, chan, delivered, server>>
-SNext == Send \/ Fail \/ Finish \/ Recv \/ Stop \/ Eof
-StreamSpec == SInit /\ [][SNext]_svars /\ WF_svars(SNext)
-FirstErr == IF \E i \in 1..Len(Script) : Script[i] = "ERR" THEN CHOOSE i \in 1..Len(Script) : Script[i] = "ERR" /\ \A j \in 1..(i - 1) : Script[j] # "ERR" ELSE Len(Script) + 1
-PrefixOk == IsPrefix(delivered, Script)
-EndOk == /\ client = "done"   => delivered = Script
-         /\ client = "failed" => delivered = SubSeq(Script, 1, FirstErr - 1)
-         /\ client = "stopped" => Len(delivered) = MaxTake
-Terminates == <>(client # "run")
+(* (iii) the Run stream state machine is in PluginStream.tla *)
 =============================================================================
